@@ -115,6 +115,36 @@ def run(tier):
                     chk.fail('rewrite:second-write-raises', case, f'writing the same DLISFile a second time raises {e2}')
                 elif d1 != d2:
                     chk.fail('rewrite:second-write-differs', case, 'the second write of the same DLISFile gives different bytes')
+        # (b1) the same specification in the other mode first: what high-compatibility mode refuses (or accepts) does not
+        # depend on the names, units and labels having been seen before outside the mode, nor the other way round
+        for i in range(16 if tier == 'quick' else 120):
+            target = filegen.gen_spec(R, small=True, hc=(i % 4 >= 2))
+            target['write'].update({'data_kind': 'inline', 'from_idx': 0, 'to_idx': None})
+            target['hc'] = (i % 4 != 1)
+            if i % 4 == 2:
+                # compliant throughout but for ONE kind of thing, which the mode must refuse however often it was seen
+                what = R.choice(['object-names', 'object-names', 'channel-units'])
+                for lf in target['lfs']:
+                    for o in lf['objects']:
+                        if what == 'object-names' and o['kind'] != 'origin' and R.random() < 0.6:
+                            o['name'] = o['name'][:200] + R.choice([' x', '.a', '#1', 'lower'])
+                        if what == 'channel-units' and o['kind'] == 'channel':
+                            o['attrs']['units'] = {'v': R.choice(['not-a-unit', 'furlong', 'M']), 'units': None, 'route': 'plain'}
+            other = pickle.loads(pickle.dumps(target))
+            other['hc'] = not target['hc']
+            stf, fresh = fresh_write(target, tmp, 'fresh')
+            r0 = filegen.write(other, tmp, fname='other-mode.dlis')
+            r1 = filegen.write(target, tmp, fname='t1.dlis')
+            case = {'index': i, 'spec': filegen.describe(target), 'high_compat': target['hc'],
+                    'history': f'the same specification built and written with high-compatibility mode '
+                               f'{"on" if other["hc"] else "off"} first ({r0["status"]})'}
+            chk.case('after-the-other-mode', nontrivial_key=('b1', i), sample={'index': i, 'hc': target['hc'], 'status': r1['status'], 'fresh': stf})
+            chk.count(f'modes:{"hc" if target["hc"] else "plain"}:{r1["status"]}:{stf}')
+            if (r1['status'] == 'ok') != (stf == 'ok'):
+                chk.fail('history:writability-differs-after-other-mode', case,
+                         f'in-process: {r1["status"]} {r1["error"]}; fresh process: {stf} {fresh if stf != "ok" else ""}')
+            elif stf == 'ok' and r1['data'] != fresh:
+                chk.fail('history:bytes-differ-after-other-mode', case, 'bytes differ from a fresh-process write of the same specification')
         # (b2) data handed to one write must not be remembered for the next: a later write without that data, or from
         # another kind of source, behaves as it does on a fresh specification
         for i in range(20 if tier == 'quick' else 200):
